@@ -32,7 +32,9 @@ EXPECT_CLASS = {"text": "vText", "int": "vInt", "uri": "vUri", "caladdr": "vCalA
                 "cats": "vCategory", "dates": "vDDDLists", "dates-date": "vDDDLists", "periods": "vDDDLists", "naive": "vDDDTypes", "zoned": "vDDDTypes", "fixed": "vDDDTypes", "pfixed": "vDDDTypes"}
 UTC_FORCED = {"DTSTAMP", "CREATED", "LAST-MODIFIED"}
 UTC = timezone.utc
-MATCH = [60, 120, -300, 330, 525, 840, -720, -570]      # minutes: offsets for which an IANA zone with that constant offset exists
+# minutes: offsets for which an IANA zone with that constant offset exists (every whole hour -12..+14 and six others); the library
+# finds them through its table of equivalent zones, so a corrupted entry of that table shows as a wrong instant
+MATCH = [h * 60 for h in range(-12, 15)] + [330, 525, -570, 270, 390, 570]
 NOMATCH = [83, -83, 1, 90, 345]                         # no such zone in the library's table (RC-AX)
 
 
